@@ -27,7 +27,11 @@ EdgeValue(e) ==
 \* representation-agnostic equality of two value records (a finite value may be reported in
 \* milli units or as a rational)
 FiniteV(x) == x.k \in {"rat", "milli"}
-SameValue(x, y) == IF FiniteV(x) /\ FiniteV(y) THEN x.v[1] * y.v[2] = y.v[1] * x.v[2] ELSE x.k = y.k
+\* (reduced fractions are compared component-wise: no products, so no 32-bit overflow)
+RECURSIVE GcdE(_, _)
+GcdE(a, b) == IF b = 0 THEN (IF a < 0 THEN -a ELSE a) ELSE GcdE(b, a % b)
+Reduced(q) == LET g == GcdE(q[1], q[2]) IN IF g = 0 THEN <<0, 1>> ELSE <<q[1] \div g, q[2] \div g>>
+SameValue(x, y) == IF FiniteV(x) /\ FiniteV(y) THEN Reduced(x.v) = Reduced(y.v) ELSE x.k = y.k
 
 \* which scenario a zero-tp result is in, from the instance counts
 Scenario(nPred, nRef) ==
